@@ -391,6 +391,34 @@ impl BuildChecksumer for BuildPosHash {
 }
 
 fn c19_one<A: Subject>(run: &Run, reserved: u32, lens: &[u32], cap: u32, backend: Backend) {
+  c19_content::<A>(run, reserved, lens, cap, backend, 0)
+}
+
+/// content 0: byte-distinct non-zero pattern; 1: all zero; 2: the pattern with a zero-filled stretch of two pages
+/// (contains a whole chunk whatever the chunk phase); 3: zero except the first and the last byte
+fn c19_fill(content: u8, o: u64, first: u64, last: u64) -> u8 {
+  let pat = (o.wrapping_mul(0x9E37_79B9) >> 7) as u8 | 1;
+  match content {
+    0 => pat,
+    1 => 0,
+    2 => {
+      if (3000..3000 + 2 * 4096).contains(&o) {
+        0
+      } else {
+        pat
+      }
+    }
+    _ => {
+      if o == first || o == last {
+        0x77
+      } else {
+        0
+      }
+    }
+  }
+}
+
+fn c19_content<A: Subject>(run: &Run, reserved: u32, lens: &[u32], cap: u32, backend: Backend, content: u8) {
   let mut cfg = Cfg::new(Fl::Optimistic, backend, true, cap);
   cfg.reserved = reserved;
   let path = if backend == Backend::File { Some(fresh_path("c19")) } else { None };
@@ -407,7 +435,7 @@ fn c19_one<A: Subject>(run: &Run, reserved: u32, lens: &[u32], cap: u32, backend
   drop(b);
   for i in 0..bcap {
     let o = (off + i) as u64;
-    unsafe { *a.raw_mut_ptr().add(off + i) = (o.wrapping_mul(0x9E37_79B9) >> 7) as u8 | 1 };
+    unsafe { *a.raw_mut_ptr().add(off + i) = c19_fill(content, o, off as u64, (off + bcap - 1) as u64) };
   }
   let crc = Crc32::new();
   let ph = BuildPosHash;
@@ -416,14 +444,17 @@ fn c19_one<A: Subject>(run: &Run, reserved: u32, lens: &[u32], cap: u32, backend
       continue;
     }
     unsafe { a.rewind(ArenaPosition::Start(l)) };
-    let data = &a.allocated_memory()[reserved as usize..];
+    if a.reserved_bytes() != reserved as usize {
+      viol(run, "C19", "reserved-bytes", format!("[{} {:?}] reserved_bytes() = {} on an arena created with reserved {}", A::FLAVOUR, backend, a.reserved_bytes(), reserved), json!({"engine": "c19", "flavour": A::FLAVOUR, "reserved": reserved, "allocated": l}));
+    }
+    let data = &a.allocated_memory()[a.reserved_bytes()..];
     let want1 = crc.checksum_one(data);
     let want2 = ph.checksum_one(data);
     let got1 = a.checksum(&crc);
     let got2 = a.checksum(&ph);
     run.eval(2);
     if got1 != want1 || got2 != want2 {
-      viol(run, "C19", &format!("digest-differs:{}", if got2 != want2 { "poshash" } else { "crc32" }), format!("[{} {:?} reserved {} allocated {}] checksum() = ({:#x},{:#x}), one-shot over allocated_memory()[reserved..] = ({:#x},{:#x})", A::FLAVOUR, backend, reserved, l, got1, got2, want1, want2), json!({"engine": "c19", "flavour": A::FLAVOUR, "reserved": reserved, "allocated": l}));
+      viol(run, "C19", &format!("digest-differs:{}{}", if got2 != want2 { "poshash" } else { "crc32" }, if content == 0 { "" } else { ":sparse-content" }), format!("[{} {:?} reserved {} allocated {} content {}] checksum() = ({:#x},{:#x}), one-shot over allocated_memory()[reserved_bytes()..] = ({:#x},{:#x})", A::FLAVOUR, backend, reserved, l, content, got1, got2, want1, want2), json!({"engine": "c19", "flavour": A::FLAVOUR, "reserved": reserved, "allocated": l, "content": content}));
     }
     run.states.insert(hash_of(&(reserved, l, A::SYNC)));
     if (l - reserved) as usize >= a.page_size() {
@@ -433,6 +464,60 @@ fn c19_one<A: Subject>(run: &Run, reserved: u32, lens: &[u32], cap: u32, backend
   drop(a);
   if let Some(p) = path {
     let _ = std::fs::remove_file(p);
+  }
+}
+
+/// the same equation on a file arena that was closed and opened again read-only (the cursor cannot be moved
+/// there: one file per allocated length)
+fn c19_reopened<A: Subject>(run: &Run, reserved: u32, lens: &[u32], cap: u32, content: u8) {
+  let mut cfg = Cfg::new(Fl::Optimistic, Backend::File, true, cap);
+  cfg.reserved = reserved;
+  let crc = Crc32::new();
+  let ph = BuildPosHash;
+  for &l in lens {
+    if (l as usize) < cfg.data_offset() || l > cap {
+      continue;
+    }
+    let path = fresh_path("c19r");
+    {
+      let a: A = build::<A>(&cfg, Some(&path)).expect("arena");
+      if reserved > 0 {
+        for (i, b) in unsafe { a.reserved_slice_mut() }.iter_mut().enumerate() {
+          *b = 0xF0 ^ i as u8;
+        }
+      }
+      let mut b = a.alloc_bytes(a.remaining() as u32).unwrap();
+      unsafe { b.detach() };
+      let (off, bcap, ..) = meta_of(&b);
+      drop(b);
+      for i in 0..bcap {
+        let o = (off + i) as u64;
+        unsafe { *a.raw_mut_ptr().add(off + i) = c19_fill(content, o, off as u64, (off + bcap - 1) as u64) };
+      }
+      unsafe { a.rewind(ArenaPosition::Start(l)) };
+    }
+    for mode in crate::props_file::Mode::ALL {
+      let a: A = match crate::props_file::open::<A>(&path, cfg.options().with_read(true).with_write(true), mode) {
+        Ok(a) => a,
+        Err(e) => {
+          eprintln!("machinery: c19 reopen {:?} failed: {}", mode, e);
+          std::process::exit(2);
+        }
+      };
+      let case = json!({"engine": "c19", "flavour": A::FLAVOUR, "reserved": reserved, "allocated": l, "content": content, "reopened": mode});
+      if a.reserved_bytes() != reserved as usize || a.reserved_slice().len() != reserved as usize {
+        viol(run, "C19", "reserved-bytes:reopened", format!("[{} {:?} reopen] reserved_bytes() = {}, reserved_slice().len() = {} on a file created with reserved {}", A::FLAVOUR, mode, a.reserved_bytes(), a.reserved_slice().len(), reserved), case.clone());
+      }
+      let rb = a.reserved_bytes().min(a.allocated());
+      let data = &a.allocated_memory()[rb..];
+      let (want1, want2) = (crc.checksum_one(data), ph.checksum_one(data));
+      let (got1, got2) = (a.checksum(&crc), a.checksum(&ph));
+      run.eval(2);
+      if got1 != want1 || got2 != want2 {
+        viol(run, "C19", &format!("digest-differs:reopened:{}", if mode.writable() { "writable" } else { "read-only" }), format!("[{} {:?} reopen, reserved {} allocated {} content {}] checksum() = ({:#x},{:#x}), one-shot over allocated_memory()[reserved_bytes()..] = ({:#x},{:#x})", A::FLAVOUR, mode, reserved, l, content, got1, got2, want1, want2), case);
+      }
+    }
+    let _ = std::fs::remove_file(&path);
   }
 }
 
@@ -460,11 +545,32 @@ pub fn check_c19(tier: Tier) -> i32 {
       c19_one::<sync::Arena>(&run, r, &near, cap, Backend::File);
       c19_one::<sync::Arena>(&run, r, &near, cap, Backend::Anon);
     }
+    // contents with zero-filled stretches (never written, partly written, a zeroed hole)
+    if [0, 5, 8, 64].contains(&r) || thorough {
+      for content in [1u8, 2, 3] {
+        if sync {
+          c19_content::<sync::Arena>(&run, r, &near, cap, Backend::Vec, content);
+        } else {
+          c19_content::<unsync::Arena>(&run, r, &near, cap, Backend::Vec, content);
+        }
+      }
+    }
+    // closed and opened again in every mode
+    if [0, 5, 64].contains(&r) {
+      let few: Vec<u32> = vec![r + 40, 200, page - 1, page, page + r + 1, 2 * page + 7, 3 * page + 80];
+      for content in [0u8, 2] {
+        if sync {
+          c19_reopened::<sync::Arena>(&run, r, &few, cap, content);
+        } else {
+          c19_reopened::<unsync::Arena>(&run, r, &few, cap, content);
+        }
+      }
+    }
   });
   let e = run.evaluations.load(std::sync::atomic::Ordering::Relaxed);
   run.trans(e);
   run.sample(|| json!({"reserved": 5, "allocated": 2 * page + 5 + 1, "builders": ["Crc32", "PosHash (position-weighted, order sensitive)"], "oracle": "checksum(b) == b.checksum_one(&allocated_memory()[5..])"}));
-  run.rule("allocated length = every value (quick: every value for reserved in {0,5,8,64}, boundary-dense around page multiples for the other reserved values) x reserved 0..=64 x {Crc32, position-sensitive hash} x {sync, unsync}; evaluations = digests compared; non-trivial = input of at least one page");
+  run.rule("allocated length = every value (quick: every value for reserved in {0,5,8,64}, boundary-dense around page multiples for the other reserved values) x reserved 0..=64 x {Crc32, position-sensitive hash} x {sync, unsync}; contents: a byte-distinct pattern, all zero, the pattern with a two-page zero hole, zero except first and last byte; file arenas closed and opened again in the four modes for selected lengths; the reference slices at reserved_bytes() as the accessor reports it; evaluations = digests compared; non-trivial = input of at least one page");
   run.set("bounds", json!({"max_allocated": 3 * page + 80, "reserved": "0..=64", "page_size": page}));
   run.finish()
 }
@@ -1044,6 +1150,10 @@ fn c18_cell(run: &Run, cfg: &Cfg, alphabet: &[Op], depth: usize, ns: &[usize]) {
             };
             let mut fops: Vec<Op> = if nn % 2 == 0 { vec![Op::B(Sz::N(1)), Op::B(Sz::N(rem)), Op::B(Sz::N(rem + 1)), Op::B(Sz::N(33))] } else { vec![] };
             if nn % 2 == 1 {
+              // every other odd size asks for the typed value first: it may fit with less than align - 1 bytes to spare
+              if nn % 4 == 3 {
+                fops.push(Op::T(U64));
+              }
               if let Some(x) = exact_ab {
                 fops.push(Op::AB(U64, Sz::N(x)));
               }
